@@ -92,24 +92,26 @@ func vfGenAddr(t *rapid.T) netip.Addr {
 }
 
 func TestVfC15Limiter(t *testing.T) {
-	st := vfkit.Stats("TestVfC15Limiter", "limiter options (limit, burst incl. default, masks omitted or in range) x arrival histories of (address in few v4/v6/v4-mapped subnets, dt >= 0, cost 1..15) in virtual time; non-trivial = >= 2 subnets, >= 1 refusal and >= 1 admission after a refusal")
+	st := vfkit.Stats("TestVfC15Limiter", "limiter options (limit, burst incl. default, masks omitted, in range, or no prefix length at all = default) x arrival histories of (address in few v4/v6/v4-mapped subnets, dt >= 0, cost 1..15) in virtual time; non-trivial = >= 2 subnets, >= 1 refusal and >= 1 admission after a refusal")
 	defer vfkit.Flush()
 	base := time.Now()
 	rapid.Check(t, func(t *rapid.T) {
 		limit := rapid.SampledFrom([]int{1, 2, 5, 20, 100}).Draw(t, "limit")
 		burst := rapid.SampledFrom([]int{0, 1, 3, 10, 40}).Draw(t, "burst")
-		v4 := rapid.SampledFrom([]int{0, 0, 8, 16, 24, 25, 32}).Draw(t, "v4mask")
-		v6 := rapid.SampledFrom([]int{0, 0, 32, 48, 56, 64, 128}).Draw(t, "v6mask")
+		// a value that is no prefix length of the family (negative, beyond the address length) configures nothing:
+		// the documented default applies
+		v4 := rapid.SampledFrom([]int{0, 0, 8, 16, 24, 25, 32, 1, -1, -24, 33, 200}).Draw(t, "v4mask")
+		v6 := rapid.SampledFrom([]int{0, 0, 32, 48, 56, 64, 128, 1, -1, -48, 129, 1000}).Draw(t, "v6mask")
 		opts := limiter.ClientLimiterOpts{Limit: float64(limit), Burst: burst, V4Mask: v4, V6Mask: v6}
 		refBurst := burst
 		if refBurst == 0 {
 			refBurst = limit
 		}
 		ref4, ref6 := v4, v6
-		if ref4 == 0 {
+		if ref4 <= 0 || ref4 > 32 {
 			ref4 = 24
 		}
-		if ref6 == 0 {
+		if ref6 <= 0 || ref6 > 128 {
 			ref6 = 48
 		}
 		n := rapid.IntRange(1, 60).Draw(t, "nEvents")
